@@ -32,18 +32,18 @@ func openRepro(dir string, delay time.Duration) database.DB {
 }
 
 // reproCompaction: a Get that starts after a Set returned must see that Set (or a later one).
-//  1. write some keys, FlushIndex (so that CompactIndex has something to do)
-//  2. start CompactIndex; while it dumps its snapshot, one client keeps overwriting key "a0" (every Set returns after
-//     commit and after the index has caught up)
-//  3. when CompactIndex has returned, the same client (no call in flight) reads "a0" with default options.
-// Expected: the value of the last acknowledged Set.  Observed on the unchanged tree: an older value - the index was
-// swapped for the compacted snapshot, which does not contain the transactions indexed during the dump, while
-// WaitForIndexingUpto still reports them as indexed.
+//  1. write some keys, FlushIndex (so that CompactIndex has something to do), start CompactIndex
+//  2. a writer overwrites key "a0" with 1, 2, 3, ... and publishes n after Set(n) has RETURNED
+//  3. a reader loads the published n, THEN calls Get("a0") with default options: the value must be >= n.
+// Observed on the unchanged tree: an older value.  When an index is swapped for its compacted snapshot
+// (embedded/store/indexer.go restartIndex) it lacks the transactions indexed during the dump, but the indexer's watcher
+// hub still reports them as indexed, so WaitForIndexingUpto returns at once until the re-indexing has caught up.
+// (A single client does not see it: its own in-flight Set waits for the new index to reach its transaction.)
 func reproCompaction(dir string) map[string]interface{} {
 	ctx := context.Background()
 	out := map[string]interface{}{"repro": "compaction"}
-	for attempt := 1; attempt <= 10; attempt++ {
-		db := openRepro(filepath.Join(dir, fmt.Sprintf("r%d", attempt)), 10*time.Millisecond)
+	for attempt := 1; attempt <= 20; attempt++ {
+		db := openRepro(filepath.Join(dir, fmt.Sprintf("r%d", attempt)), time.Millisecond)
 		for i := 0; i < 300; i++ {
 			_, err := db.Set(ctx, &schema.SetRequest{KVs: []*schema.KeyValue{{Key: []byte(fmt.Sprintf("k%03d", i)), Value: []byte("x")}}})
 			vh.Must(err, "Set")
@@ -51,19 +51,24 @@ func reproCompaction(dir string) map[string]interface{} {
 		vh.Must(db.FlushIndex(&schema.FlushIndexRequest{CleanupPercentage: 0, Synced: true}), "FlushIndex")
 		done := make(chan error, 1)
 		go func() { done <- db.CompactIndex() }()
-		time.Sleep(20 * time.Millisecond) // only to let the dump start; the outcome is checked, not assumed
-		const n = 300
-		var lastTx uint64
-		for i := 1; i <= n; i++ {
-			h, err := db.Set(ctx, &schema.SetRequest{KVs: []*schema.KeyValue{{Key: []byte("a0"), Value: []byte(strconv.Itoa(i))}}})
-			vh.Must(err, "Set a0")
-			lastTx = h.Id
-		}
-		// every Set has returned; from now on this client only reads
+		var acked, ackedTx int64
+		var stop int32
+		var wg sync.WaitGroup
+		wg.Add(1)
+		go func() {
+			defer wg.Done()
+			for n := int64(1); atomic.LoadInt32(&stop) == 0; n++ {
+				h, err := db.Set(ctx, &schema.SetRequest{KVs: []*schema.KeyValue{{Key: []byte("a0"), Value: []byte(strconv.FormatInt(n, 10))}}})
+				vh.Must(err, "Set a0")
+				atomic.StoreInt64(&ackedTx, int64(h.Id))
+				atomic.StoreInt64(&acked, n)
+			}
+		}()
 		var cerr error
 		finished := false
 		reads, after := 0, 0
-		for after < 2000 {
+		detail := ""
+		for after < 3000 && detail == "" {
 			if !finished {
 				select {
 				case cerr = <-done:
@@ -73,31 +78,42 @@ func reproCompaction(dir string) map[string]interface{} {
 			} else {
 				after++
 			}
+			n, ntx := atomic.LoadInt64(&acked), atomic.LoadInt64(&ackedTx)
+			if n == 0 {
+				continue
+			}
 			reads++
 			e, err := db.Get(ctx, &schema.KeyRequest{Key: []byte("a0")})
-			if err != nil || string(e.Value) != strconv.Itoa(n) {
-				got := fmt.Sprint(err)
-				if err == nil {
-					got = fmt.Sprintf("value %q (tx %d, revision %d)", e.Value, e.Tx, e.Revision)
-				}
-				// the same stale state seen by a conditional write: a0 WAS modified after lastTx-1
+			if err != nil {
+				continue
+			}
+			got, _ := strconv.ParseInt(string(e.Value), 10, 64)
+			if got < n {
+				// the same stale state seen by a conditional write: a0 WAS modified after tx ntx-1
 				_, perr := db.Set(ctx, &schema.SetRequest{KVs: []*schema.KeyValue{{Key: []byte("p"), Value: []byte("y")}},
-					Preconditions: []*schema.Precondition{schema.PreconditionKeyNotModifiedAfterTX([]byte("a0"), lastTx-1)}})
-				out["reproduced"] = true
-				out["detail"] = fmt.Sprintf("attempt %d: %d Sets of a0 acknowledged (last: value %q, tx %d) while CompactIndex was dumping; no write in flight; "+
-					"read #%d (CompactIndex returned=%v err=%v): Get(a0) -> %s; then Set(p) with KeyNotModifiedAfterTX(a0,%d) -> err=%v",
-					attempt, n, strconv.Itoa(n), lastTx, reads, finished, cerr, got, lastTx-1, perr)
-				db.Close()
-				return out
+					Preconditions: []*schema.Precondition{schema.PreconditionKeyNotModifiedAfterTX([]byte("a0"), uint64(ntx-1))}})
+				detail = fmt.Sprintf("attempt %d: Set(a0=%d) had returned (tx %d) before Get(a0) was called (read #%d, CompactIndex returned=%v err=%v); "+
+					"Get(a0) -> value %q (tx %d, revision %d); then Set(p) with KeyNotModifiedAfterTX(a0,%d) -> err=%v",
+					attempt, n, ntx, reads, finished, cerr, e.Value, e.Tx, e.Revision, ntx-1, perr)
 			}
 		}
+		atomic.StoreInt32(&stop, 1)
+		wg.Wait()
+		if !finished {
+			<-done
+		}
 		db.Close()
+		if detail != "" {
+			out["reproduced"] = true
+			out["detail"] = detail
+			return out
+		}
 		if os.Getenv("C06_DEBUG") != "" {
-			fmt.Fprintf(os.Stderr, "attempt %d: reads=%d cerr=%v\n", attempt, reads, cerr)
+			fmt.Fprintf(os.Stderr, "attempt %d: sets=%d reads=%d cerr=%v\n", attempt, atomic.LoadInt64(&acked), reads, cerr)
 		}
 	}
 	out["reproduced"] = false
-	out["detail"] = "10 attempts: Get always returned the last acknowledged value"
+	out["detail"] = "20 attempts: Get always returned the last acknowledged value or a later one"
 	return out
 }
 
